@@ -1,9 +1,11 @@
 #!/usr/bin/env python3
 """Self-test of the machinery (not a registered check): every seeded change under /verif/seeded is applied to a scratch
 copy of /repo and the quick check of its property must give the verdict recorded in meta.json; the unchanged copy must pass.
-usage: selftest.py [id-prefix]"""
+usage: selftest.py [--update] [id-prefix]   (--update rewrites meta.json detection with the verdict of the current checks)"""
 import glob, json, os, shutil, subprocess, sys, tempfile
-pref = sys.argv[1] if len(sys.argv) > 1 else ''
+args = [a for a in sys.argv[1:] if a != '--update']
+update = '--update' in sys.argv
+pref = args[0] if args else ''
 scratch = tempfile.mkdtemp(prefix='vx-selftest-', dir='/tmp')
 bad = 0
 try:
@@ -16,6 +18,15 @@ try:
             print('%-8s patch does not apply: %s' % (m['id'], r.stdout[:100])); bad += 1; continue
         p = subprocess.run(['/verif/check', m['property'], 'quick'], env=env, capture_output=True, text=True)
         got = {0: 'missed', 1: 'detected', 2: 'undecided'}.get(p.returncode, '?')
+        if update and got != m['detection']['result']:
+            import re
+            first = m.get('first_verdict_before_strengthening') or m['detection']['result']
+            lines = [l for l in p.stdout.split('\n') if l.startswith(('VIOLATION', 'UNDECIDED'))]
+            m['detection'] = dict(check='./check %s quick' % m['property'], exit_code=p.returncode, result=got,
+                                  lines=[re.sub(r'replay=\S+ ', '', l)[:300] for l in lines])
+            if first != got:
+                m['first_verdict_before_strengthening'] = first
+            json.dump(m, open(d + 'meta.json', 'w'), indent=1)
         ok = got == m['detection']['result']
         print('%-8s %-6s expected=%-9s got=%-9s %s' % (m['id'], m['property'], m['detection']['result'], got, 'ok' if ok else 'MISMATCH'))
         bad += 0 if ok else 1
